@@ -3725,8 +3725,8 @@ addop("fxrstor", [bs8(0x0f), bs8(0xae)]
       + rmmod(d1, rm_arg_m80))  # XXX TODO m512
 addop("fxsave", [bs8(0x0f), bs8(0xae)]
       + rmmod(d0, rm_arg_m80))  # XXX TODO m512
-addop("stmxcsr", [bs8(0x0f), bs8(0xae)] + rmmod(d3))
-addop("ldmxcsr", [bs8(0x0f), bs8(0xae)] + rmmod(d2))
+addop("stmxcsr", [bs8(0x0f), bs8(0xae)] + rmmod(d3, modrm=mod_mem))
+addop("ldmxcsr", [bs8(0x0f), bs8(0xae)] + rmmod(d2, modrm=mod_mem))
 
 addop("fxtract", [bs8(0xd9), bs8(0xf4)])
 addop("fyl2x", [bs8(0xd9), bs8(0xf1)])
@@ -3856,7 +3856,7 @@ addop("movmskps", [bs8(0x0f), bs8(0x50), no_xmm_pref] +
 addop("movmskpd", [bs8(0x0f), bs8(0x50), pref_66] +
       rmmod(reg_modrm, rm_arg_xmm_reg))
 
-addop("movnti", [bs8(0x0f), bs8(0xc3)] + rmmod(rmreg), [rm_arg, rmreg])
+addop("movnti", [bs8(0x0f), bs8(0xc3)] + rmmod(rmreg, modrm=mod_mem), [rm_arg, rmreg])
 
 addop("addss", [bs8(0x0f), bs8(0x58), pref_f3] + rmmod(xmm_reg, rm_arg_xmm_m32))
 addop("addsd", [bs8(0x0f), bs8(0x58), pref_f2] + rmmod(xmm_reg, rm_arg_xmm_m64))
@@ -4566,9 +4566,9 @@ addop("pextrq", [bs8(0x0f), bs8(0x3a), bs8(0x16), pref_66] +
 addop("pextrw", [bs8(0x0f), bs8(0x3a), bs8(0x15), pref_66] +
       rmmod(xmm_reg, rm_arg_reg_m16) + [u08], [rm_arg_reg_m16, xmm_reg, u08])
 addop("pextrw", [bs8(0x0f), bs8(0xc5), no_xmm_pref] +
-      rmmod(rmreg, rm_arg_mm) + [u08], [rmreg, rm_arg_mm, u08])
+      rmmod(rmreg, rm_arg_mm, modrm=mod_reg) + [u08], [rmreg, rm_arg_mm, u08])
 addop("pextrw", [bs8(0x0f), bs8(0xc5), pref_66] +
-      rmmod(rmreg, rm_arg_xmm) + [u08], [rmreg, rm_arg_xmm, u08])
+      rmmod(rmreg, rm_arg_xmm, modrm=mod_reg) + [u08], [rmreg, rm_arg_xmm, u08])
 
 
 addop("sqrtpd", [bs8(0x0f), bs8(0x51), pref_66] +
